@@ -402,7 +402,7 @@ func Run(c Case) pbt.Outcome {
 }
 
 // genOps builds an op list (<= maxOps) out of bursts: fill, drain-to-empty (plus
-// extra removals on the empty container), partial drain, mixed, observers, and (one case in forty) garbage
+// extra removals on the empty container), partial drain, mixed, observers, and (one case in 150) garbage
 // collections between the calls. The
 // generator tracks the size so that "drain" bursts really reach empty. One case in
 // five uses long fills (up to 70 per burst) so that sizes beyond 32 and 64 occur.
@@ -430,7 +430,7 @@ func genOps(t *rapid.T) []Op {
 		}
 	}
 	bursts := []int{0, 0, 0, 1, 1, 1, 2, 3, 3, 4}
-	if rapid.IntRange(0, 39).Draw(t, "gc") == 0 {
+	if rapid.IntRange(0, 149).Draw(t, "gc") == 0 {
 		bursts = []int{0, 0, 0, 1, 1, 1, 2, 3, 3, 4, 5}
 	}
 	nb := rapid.IntRange(2, 16).Draw(t, "bursts")
@@ -490,7 +490,7 @@ var queueKinds = kindsOf("queue")
 var stackKinds = kindsOf("stack-nil", "stack-empty", "stack-cap", "stack-cap100")
 
 const ruleBursts = "op list <= 80 (one case in five: <= 260 with fills up to 70, so that sizes beyond 32 and 64 occur) built from bursts (fill, drain to empty + 0..2 calls on the empty container, " +
-	"partial drain, mixed, observers; one case in forty also has runtime.GC() + small allocations between the calls), values are unique ids with 5% zero values, one case in eight is quiet; "
+	"partial drain, mixed, observers; one case in 150 also has runtime.GC() + small allocations between the calls), values are unique ids with 5% zero values, one case in eight is quiet; "
 
 var specQueue = pbt.Register(&pbt.Spec[Case]{
 	Property: "C16", Name: "C16.queue", Rule: "rapid: Queue of every element type, " + ruleBursts + rule + ruleNT,
